@@ -323,6 +323,11 @@ def check(run):
     run.clause('R1 no closure, handler or packet field is filled by std::move of an object that a later iteration of the same loop moves again (moved-from reuse: only the first segment would carry its drop callback / only the first completion its handler)')
     nmv = engines.moved_in_loop(run, [f_ for f_ in fx.repo_functions() if f_.file.startswith(simlib.REPO_PREFIX + 'src/')])
     run.ok('R1', 'moved-from-in-loop', 'scan', '', 'std::move sites inside loops examined: %d' % nmv, nontrivial=False)
+    run.clause('resolver: cancel() and the destructor complete every queued lookup with operation_aborted, whatever result the entry already holds (shared with C14)')
+    import p14 as _p14
+    for cn_ in fx.fn('sim::asio::ip::basic_resolver::cancel'):
+        run.touch(cn_)
+        _p14.cancel_aborts_rule(run, cn_, 'udp' if 'udp' in cn_.name else 'tcp', rule='R6-ABORT')
     run.floor('R6-ABORT', 21)
 
     # timer: cancel / re-arm / destroy
